@@ -41,8 +41,20 @@ Widened == {M(<<Ins("int-to-long", 0, 4, 0), Ins("int-to-long", 2, 5, 0), Ins(nm
            \cup {M(<<Ins("int-to-long", 0, 4, 0), Ins(nm \o "-long", 0, 0, 5), RetW(0)>>, 6, 4, <<"I", "I">>, "J") : nm \in {"shl", "shr", "ushr"}}
            \cup {M(<<Ins("int-to-long", 0, 4, 0), Ins("mul-long", 0, 0, 0), RetW(0)>>, 6, 4, <<"I", "I">>, "J"),
                  M(<<Ins("int-to-long", 0, 4, 0), Ins("neg-long", 0, 0, 0), RetW(0)>>, 6, 4, <<"I", "I">>, "J")}
+\* a division / remainder executed unconditionally whose result is consumed on one path only (p0 = v1, p1 = v2):
+\*   t = a OP b; if (a > 0) return t; return a          -- with b = 0 the bytecode throws whatever the path
+\* and in front of a loop (p0 = v3, p1 = v4):  t = a OP b; s = 0; n = a & 3; while (n > 0) { s += t; n-- } return s
+BeforeBranch(dv) == <<dv, Br("if-lez", 1, 4), Ret(0), Ret(1)>>
+BeforeLoop(dv) == <<dv, InsLit("const/4", 1, 0, 0), InsLit("and-int/lit8", 2, 3, 3), Br("if-lez", 2, 8), Ins("add-int/2addr", 1, 0, 0),
+                    InsLit("add-int/lit8", 2, 2, -1), [I(0) EXCEPT !.op = "goto", !.t = 4], Ret(1)>>
+Hoisted == {M(BeforeBranch(dv), 3, 1, <<"I", "I">>, "I") : dv \in {Ins("div-int", 0, 1, 2), Ins("rem-int", 0, 1, 2), Ins("rem-int", 0, 2, 1),
+                                                                     InsLit("div-int/lit8", 0, 1, 0), InsLit("rem-int/lit16", 0, 2, 0), InsLit("div-int/lit8", 0, 2, 5)}}
+           \cup {M(BeforeLoop(dv), 5, 3, <<"I", "I">>, "I") : dv \in {Ins("div-int", 0, 3, 4), Ins("rem-int", 0, 3, 4), Ins("div-int", 0, 4, 3)}}
+\* a copy of a parameter taken before the parameter is modified on one path (p0 = v1, p1 = v2):  t = a; if (b > 0) a = a OP 1; return t * a
+ParamCopy == {M(<<Ins("move", 0, 1, 0), Br("if-lez", 2, 4), ow, Ins("mul-int", 0, 0, 1), Ret(0)>>, 3, 1, <<"I", "I">>, "I") :
+                ow \in {InsLit("add-int/lit8", 1, 1, 1), Ins("sub-int/2addr", 1, 2, 0), InsLit("xor-int/lit8", 1, 1, -1)}}
 Methods ==
-  Aliased \cup Propagated \cup Widened \cup
+  Aliased \cup Propagated \cup Widened \cup Hoisted \cup ParamCopy \cup
   {M(<<Ins(nm \o "-int", 0, 2, 3), Ret(0)>>, 4, 2, <<"I", "I">>, "I") : nm \in IntAlu}
   \cup {M(<<Ins(nm \o "-int/2addr", 2, 3, 0), Ret(2)>>, 4, 2, <<"I", "I">>, "I") : nm \in IntAlu}
   \cup {M(<<InsLit(nm \o "-int/lit16", 0, 1, lt), Ret(0)>>, 2, 1, <<"I">>, "I") : nm \in Lit16Alu, lt \in Lits16}
